@@ -731,6 +731,8 @@ class Machine(Interp):
             f = it.props.get("as_list")
             if f is None:
                 raise Unsupported(f"iteration over opaque {it!r}")
+            if it.props.get("unordered"):
+                ctx().log("nondeterministic-iteration", "set", it.tag)
             return self.iteration_plan(f(it))
         if isinstance(it, (SInt, SBool, Fold, Poison)) or is_symstr(it):
             raise Unsupported(f"iteration over {type(it).__name__}")
